@@ -93,6 +93,9 @@ def digestOf (dg : Digests) (alg : Str) : Str :=
 def acceptedReal (dg : Digests) (fps : List Fingerprint) : Bool :=
   accepted asciiLower asciiLower ALGS (digestOf dg) fps
 
+/-- `RTCCertificate.getFingerprints`: one fingerprint per supported algorithm, `certificate_digest` each. -/
+def localFingerprints (dg : Digests) : List Fingerprint := ALGS.map fun a => ⟨a, digestOf dg a⟩
+
 /-! ## SRTP keys -/
 
 /-- `SRTPProtectionProfile.get_key_and_salt(src, idx)` (Python slices truncate silently). -/
@@ -230,7 +233,9 @@ inductive Ev
                                  -- do_handshake returned; then identity check and SRTP setup (synchronous)
   | pump (d : RecvIn)            -- one iteration of `__run`
   | sendData (d : Bytes)
-  | sendRtp (d : Bytes)
+  | sendRtp (d : Bytes) (protectOk : Bool)
+                                 -- `protectOk = false`: `_tx_srtp.protect[_rtcp]` raised pylibsrtp.Error
+                                 -- (libsrtp refuses an index that is behind its own replay window)
   | stop
   deriving DecidableEq, Repr
 
@@ -280,9 +285,12 @@ def step (t : T) : Ev → T × List Eff
     else (t, [.invalid])
   | .sendData d =>
     if t.state ≠ .connected then (t, [.refused]) else (t, [.sentData d])
-  | .sendRtp d =>
+  | .sendRtp d protectOk =>
+    -- `sentRtp d` = the plaintext was handed to `protect`; when libsrtp refuses it the exception escapes
+    -- `_send_rtp` and nothing reaches the wire
     if t.state ≠ .connected then (t, [.refused])
-    else if isRtcp d then (t, [.sentRtcp d]) else (t, [.sentRtp d])
+    else if isRtcp d then (t, if protectOk then [.sentRtcp d] else [.sentRtcp d, .raised "Error"])
+    else (t, if protectOk then [.sentRtp d] else [.sentRtp d, .raised "Error"])
   | .stop =>
     if t.handshaking = true then (t, [.invalid])
     else if t.pumping = true then ({ t with state := .closed, pumping := false }, [.state .closed])
@@ -299,5 +307,71 @@ def run (t : T) : List Ev → T × List Eff
 /-- A freshly constructed transport. -/
 def init (profiles : List Profile) (hasDataReceiver : Bool) (role : Role) : T :=
   { profiles := profiles, hasDataReceiver := hasDataReceiver, role := role }
+
+/-! ## the SRTP replay windows of the two sessions that `_setup_srtp` creates
+
+libsrtp keeps, per SSRC, a replay database over EXTENDED packet indexes (ROC·2¹⁶ + sequence number):
+`srtp_rdbx_check` answers `ok` (index ahead of the highest one, or inside the window and not yet seen),
+`replay_fail` (inside the window, already seen) or `replay_old` (`window` or more behind the highest one).
+The SENDING session runs the same check in `srtp_protect` (a too-old index makes `protect` fail; a repeated
+one is let through iff `allow_repeat_tx`), the RECEIVING session runs it in `srtp_unprotect` before the
+authentication. The two window sizes are what `_setup_srtp` puts into `tx_policy` / `rx_policy`
+(`window_size`, 0 = libsrtp's default 128). The harness observes both sizes on the real `Policy`
+objects and replays every generated packet sequence on the real sessions against `Link.run`. -/
+
+structure Rdb where
+  hi : Nat := 0
+  seen : List Nat := []
+  deriving DecidableEq, Repr
+
+inductive WinRes | fresh | replay | old
+  deriving DecidableEq, Repr
+
+/-- `srtp_rdbx_check` for a window of `w` packets. -/
+def Rdb.check (w : Nat) (r : Rdb) (i : Nat) : WinRes :=
+  if r.hi < i then .fresh
+  else if w ≤ r.hi - i then .old
+  else if i ∈ r.seen then .replay else .fresh
+
+/-- `srtp_rdbx_add_index`. -/
+def Rdb.add (r : Rdb) (i : Nat) : Rdb := { hi := max r.hi i, seen := i :: r.seen }
+
+/-- Sending and receiving replay databases of one SSRC. -/
+structure Link where
+  tx : Rdb := {}
+  rx : Rdb := {}
+  deriving DecidableEq, Repr
+
+inductive PktOut
+  | txRefused   -- `protect` raised: the sender's own window rejects the index
+  | rxOld       -- sent, dropped by the receiver as "index too old"
+  | rxReplay    -- sent, dropped by the receiver as a replay of an index it has delivered
+  | authFail    -- sent, altered in transit, dropped
+  | delivered
+  deriving DecidableEq, Repr
+
+def Link.recv (wrx : Nat) (l : Link) (i : Nat) (altered : Bool) : Link × PktOut :=
+  match l.rx.check wrx i with
+  | .old => (l, .rxOld)
+  | .replay => (l, .rxReplay)
+  | .fresh => if altered then (l, .authFail) else ({ l with rx := l.rx.add i }, .delivered)
+
+/-- One packet with extended index `i` handed to the sending session and, if it gets through, over the
+(in-order) link to the receiving one. -/
+def Link.send (wtx wrx : Nat) (repeatTx : Bool) (l : Link) (i : Nat) (altered : Bool) : Link × PktOut :=
+  match l.tx.check wtx i with
+  | .old => (l, .txRefused)
+  | .replay => if repeatTx then l.recv wrx i altered else (l, .txRefused)
+  | .fresh => Link.recv wrx { l with tx := l.tx.add i } i altered
+
+def Link.run (wtx wrx : Nat) (repeatTx : Bool) (l : Link) : List (Nat × Bool) → Link × List PktOut
+  | [] => (l, [])
+  | (i, a) :: ps =>
+    let r := l.send wtx wrx repeatTx i a
+    let r' := Link.run wtx wrx repeatTx r.1 ps
+    (r'.1, r.2 :: r'.2)
+
+/-- libsrtp's effective window for a `Policy.window_size` value. -/
+def effWindow (w : Nat) : Nat := if w = 0 then 128 else w
 
 end Aiortc.Model.Dtls
